@@ -55,7 +55,9 @@ def _default_for(rng: random.Random, typ: str, nullable: bool) -> tuple[object, 
         d = rng.choice(("0.0", "1.5", "-2.25", "1e10", "0", 1.5, -2.25, 0))
         return d, "default:float" + ("" if isinstance(d, str) else ":json-number")
     if typ == "string":
-        return rng.choice(("", "foo", "a b", "it's", "ü", "PLAIN", "DefaultGroup", "Mixed Case 1", "TRUE", "0x1F", "null ")), "default:string"
+        d = rng.choice(("", "foo", "a b", "it's", "ü", "PLAIN", "DefaultGroup", "Mixed Case 1", "TRUE", "0x1F", "null ",
+                        "\U00020bb7\u91ce\u5bb6", "emoji \U0001f600", 'q"uote', "back\\slash", "tab\there", "{braces} %s"))
+        return d, "default:string" + (":special-characters" if not d.isascii() or any(c in d for c in '"\\\t{%') else "")
     return None
 
 
